@@ -64,6 +64,20 @@ def h_access(n: int, valid1: bool, valid2: bool, vok: bool, s0: int, s1: int, k:
             if exp_ok:
                 src, off = ref.at(q)
                 exp = Seq.of(('sub', src, off), atom[0]) if atom else Seq((Seg(src, off, off + 1),))
+        elif kind in ('read-ell', 'read-ell-lead'):
+            # a tuple index with an Ellipsis that stands for no axis (1-D) or for the trailing axes
+            idx = (s0, Ellipsis) if kind == 'read-ell' else (Ellipsis, s0)
+            if kind == 'read-ell-lead' and atom != ():
+                idx = (s0, Ellipsis)
+            exp_ok = -n <= s0 < n
+            q = s0 + n if s0 < 0 else s0
+            exp = None
+            if exp_ok:
+                src, off = ref.at(q)
+                exp = Seq.of(('sub', src, off), atom[0]) if atom else Seq((Seg(src, off, off + 1),))
+        elif kind == 'write-ell':
+            idx = (s0, Ellipsis) if atom else (Ellipsis, s0)
+            exp_ok = vok and -n <= s0 < n
         elif kind == 'write-opaque':
             idx = np.OpaqueIndex(f'i{i}', valid)
             exp_ok = valid and vok
@@ -111,7 +125,10 @@ def h_access(n: int, valid1: bool, valid2: bool, vok: bool, s0: int, s1: int, k:
             if exp_ok:
                 if err is not None:
                     raise Violation(f'{kind}: valid assignment raised {type(err).__name__}')
-                if kind == 'write-slice':
+                if kind == 'write-ell':
+                    q = s0 + n if s0 < 0 else s0
+                    ref = ref.cut(0, q).concat(Seq.of(('bcast', 'v', numtype), 1)).concat(ref.cut(q + 1, n))
+                elif kind == 'write-slice':
                     lo, hi = clamp_slice(s0, s1, n)
                     ref = ref.cut(0, lo).concat(Seq.of(('bcast', 'v', numtype), hi - lo)).concat(
                         ref.cut(hi, n))
@@ -155,6 +172,102 @@ def h_access(n: int, valid1: bool, valid2: bool, vok: bool, s0: int, s1: int, k:
             raise Violation(f'{kind}: a previously returned array changed when the file changed')
     no_open_handles(w, 'end')
     reach('end')
+
+
+def h_nested(n: int, vok: bool, s0: int, s1: int, probe: int, outer='r', inner='r+', via='context', atom=(),
+             _gate=None, _small=False):
+    """a context (or chunk iterator) that asks for ANOTHER access mode than the one the array is already open in:
+    whether the request is honoured, ignored or refused, nothing stays open once every context is left, and
+    the handle works as before afterwards"""
+    assume(1 <= n <= BIG)
+    small(_small, n, s0, s1)
+    w = new_world()
+    put_array(D, w, '/w/a', n, 'int16', 'little', atom)
+    a = D.array.Array('/w/a', accessmode='r+')
+    ref = Seq.of(('orig',), n)
+    held = []
+    with a.open_array(accessmode=outer):
+        try:
+            if via == 'context':
+                with a.open_array(accessmode=inner):
+                    try:
+                        a[slice(s0, s1)] = np.OpaqueValue('v', vok)
+                        wrote = True
+                    except Exception as e:
+                        held.append(e)
+                        wrote = False
+            else:
+                wrote = False
+                for ch in a.iterchunks(1, accessmode=inner):
+                    break
+        except Exception as e:
+            held.append(e)
+            wrote = False
+        if wrote:
+            lo, hi = clamp_slice(s0, s1, n)
+            ref = ref.cut(0, lo).concat(Seq.of(('bcast', 'v', 'int16'), hi - lo)).concat(ref.cut(hi, n))
+        if w.open_handles() == 0:
+            raise Violation('inside the outer open_array() context no file is open')
+        got = use(a[slice(0, 1)], 'read inside the outer context')
+    if w.open_handles() != 0:
+        raise Violation(f'after leaving an open_array({outer!r}) context in which {via} asked for {inner!r}, a file '
+                        f'object or memory map is still open')
+    v = a[slice(s0, s1)]
+    no_open_handles(w, 'after a later read')
+    for nm, h in (('live', a), ('fresh', D.array.Array('/w/a'))):
+        if not seq_equal(read_all(h), ref, probe):
+            raise Violation(f'{nm} handle does not show the array as NumPy semantics leave it')
+    no_open_handles(w, 'end')
+    reach('end')
+
+
+def _replay_nested(cex, d):
+    import os
+    import warnings
+    warnings.simplefilter('ignore')
+    darr, np_ = rp.real()
+    fx = dict(d.get('fixed') or {})
+    fx.update(cex)
+    n = min(int(fx['n']), 50)
+    atom = tuple(fx.get('atom', ()))
+    s0, s1 = int(fx['s0']), int(fx['s1'])
+    probs = []
+    with rp.scratch() as tmp:
+        p = tmp + '/a'
+        a = darr.asarray(p, rp.values(np_, n, atom, 'int16', 'little'), accessmode='r+')
+        held = []
+
+        def fds():
+            rp_ = os.path.realpath(p)
+            return [x for x in os.listdir('/proc/self/fd')
+                    if os.path.realpath(f'/proc/self/fd/{x}').startswith(rp_)] + \
+                   ['map:' + ln.split()[0] for ln in open('/proc/self/maps') if rp_ in ln]
+        with a.open_array(accessmode=fx['outer']):
+            try:
+                if fx['via'] == 'context':
+                    with a.open_array(accessmode=fx['inner']):
+                        try:
+                            a[s0:s1] = 3 if fx['vok'] else np_.zeros((n + 2,) + atom + (3,))
+                        except Exception as e:
+                            held.append(e)
+                else:
+                    for ch in a.iterchunks(1, accessmode=fx['inner']):
+                        break
+            except Exception as e:
+                held.append(e)
+            a[0:1]
+        if fds():
+            probs.append(f'still open after all contexts were left: {fds()}')
+        a[s0:s1]
+        if fds():
+            probs.append(f'still open after a later read: {fds()}')
+    if probs:
+        return {'reproduced': True, 'detail': '; '.join(probs[:3])}
+    return {'reproduced': False, 'detail': 'nothing stays open'}
+
+
+def replay_nested(cex, d):
+    return rp.forked(_replay_nested, cex, d)
 
 
 def h_empty(valid: bool, vok: bool, k: int, probe: int, atom=(), ctx=False, _gate=None, _small=False):
@@ -270,6 +383,8 @@ def _replay_access(cex, d):
                 idx = (slice(None, None, 2) if i == 0 else [0, -1]) if valid else n + 3
             elif kind == 'read-int':
                 idx = s0
+            elif kind in ('read-ell', 'read-ell-lead', 'write-ell'):
+                idx = (s0, Ellipsis) if (kind == 'read-ell' or atom) else (Ellipsis, s0)
             else:
                 idx = slice(s0, s1)
             if kind.startswith('read'):
@@ -347,13 +462,24 @@ def obligations(tier):
             for ctx in (False, True):
                 splits.append(dict(acc=(a, b), atom=at, numtype='float32' if i % 2 else 'int16',
                                    bo='big' if i % 3 else 'little', ctx=ctx, _must=('end',)))
+    for (a, b), at in [(('read-ell', 'write-ell'), ()), (('read-ell-lead', 'read-int'), ()), (('write-ell', 'read-ell'), (2,)),
+                       (('read-ell', 'read-slice'), (2,))]:
+        for ctx in (False, True):
+            splits.append(dict(acc=(a, b), atom=at, numtype='int16', bo='little', ctx=ctx, _must=('end',)))
     empties = [dict(atom=at, ctx=c) for at in [(), (2,)] for c in (False, True)]
-    return [Ob('IDX-empty', 'h_empty', splits=empties, timeout=T, replay='replay_access', sym='valid, vok, k, probe',
+    nested = [dict(outer=o, inner=i, via=v, atom=at) for (o, i) in (('r', 'r+'), ('r+', 'r'), ('r', 'r'))
+              for v in ('context', 'iterchunks') for at in ((), (2,))]
+    return [Ob('NESTED-mode', 'h_nested', splits=nested, timeout=T, replay='replay_nested', sym='n, vok, s0, s1, probe',
+               bounds='an r+ handle; outer open_array(accessmode) with an inner context or chunk iterator that asks for '
+                      'another (or the same) mode, an assignment inside; whether the inner request is honoured, ignored or '
+                      'refused, nothing is open once the contexts are left; exception objects are kept by the caller'),
+            Ob('IDX-empty', 'h_empty', splits=empties, timeout=T, replay='replay_access', sym='valid, vok, k, probe',
                bounds='arrays without elements (1-D and 2-D), opaque index / value tokens, inside and outside a default-mode context'),
             Ob('IDX', 'h_access', splits=splits, timeout=T, replay='replay_access',
                sym='n, valid1, valid2, vok, s0, s1, k, ctx, probe',
                bounds='n>=1 unbounded; sequences of 2 accesses from {read/write with an opaque index token of symbolic '
-                      'validity, read/write with first-axis slice s0:s1 (any ints), read with int s0 (any int)}, inside or '
+                      'validity, read/write with first-axis slice s0:s1 (any ints), read with int s0 (any int), read/write with a tuple '
+                      '(s0, ...) / (..., s0) whose Ellipsis stands for no axis or the trailing ones}, inside or '
                       'outside one open_array() context (symbolic), followed by an append and an assignment; '
                       'outside: NumPy\'s own evaluation of index expressions (N-index); two consecutive symbolic slice '
                       'assignments (nested clamp terms make z3 queries take seconds each; measured 51 paths in 300 s)')]
